@@ -1027,6 +1027,7 @@ R"(
         // current from run-queue.
         lock.lock();
         state = states::DONE;
+        VT_EVT(VT_DIE, this, 0, 0, 0);
         cond.notify_one();
         get_vcpu()->nthreads--;
         auto sw = AtomicRunQ().remove_current(states::DONE);
